@@ -231,7 +231,7 @@ Lemma tv_TRet_some : forall m n fds clk,
   (w_gnd m, [], filter (fun p => mem_z (100 + fst p) fds) (ready_wanted m (w_gnd m))).
 Proof.
   intros. lazy beta iota delta [mon_step]. repeat lift_let2.
-  unfold tv. cbn [w_gnd called expect m_iter m_spin m_loop m_wait].
+  unfold tv, m10, m9, m8. cbn [w_gnd called expect m_iter m_spin m_loop m_wait].
   assert (W : w_gnd m7 = w_gnd m); [|rewrite W; reflexivity].
   assert (V0 : w_gnd m0 = w_gnd m) by (unfold m0; chks; reflexivity).
   assert (V1 : w_gnd m1 = w_gnd m) by (unfold m1; rewrite <- V0; chks; reflexivity).
@@ -278,3 +278,154 @@ Proof. intros sc g key. unfold script_of. destruct (sc_handlers sc key); split; 
 
 Definition stale_at (m : mon) (i : list (Z * Z * bool)) : bool :=
   existsb (fun e => let fd := fst (fst e) in (100 <=? fd) && (fd <? 116) && negb (a_fd m (fd - 100))) i.
+
+Section Guard.
+Variable sc : scenario.
+
+Lemma gstep_done : forall g e, g_done (gstep sc g e) = false -> g_done g = false.
+Proof. intros g e H. destruct (g_done g) eqn:D; [|reflexivity]. unfold gstep in H. rewrite D in H. congruence. Qed.
+
+Lemma consume_keep : forall g a,
+  g_m (match consume g (g_todo g) a with
+       | Some _ => g
+       | None => if a_main (g_m g) && negb (g_wloaded g)
+                 then g_set_wait (g_with (boundary g) (g_m (boundary g)) (sc_wait sc (g_nwait g + 1))) (g_nwait g) true
+                 else g
+       end) = g_m g /\
+  (In 1104 (g_fails (match consume g (g_todo g) a with
+       | Some _ => g
+       | None => if a_main (g_m g) && negb (g_wloaded g)
+                 then g_set_wait (g_with (boundary g) (g_m (boundary g)) (sc_wait sc (g_nwait g + 1))) (g_nwait g) true
+                 else g
+       end)) -> In 1104 (g_fails g)).
+Proof.
+  intros g a. destruct (consume g (g_todo g) a); [split; auto|].
+  destruct (a_main (g_m g) && negb (g_wloaded g)); [|split; auto].
+  cbn [g_m g_set_wait g_with g_fails]. split; [apply gm_boundary|apply nf_boundary].
+Qed.
+
+(* the guard monitor carries the tracker along *)
+Lemma gstep_m : forall g e, g_done g = false -> g_m (gstep sc g e) = mon_step (g_m g) e.
+Proof.
+  intros g e D. unfold gstep. rewrite D.
+  destruct e; try reflexivity.
+  - (* TCallFd *)
+    destruct (script_of sc _ hid) as [g1 l] eqn:S. cbn [g_m g_with].
+    pose proof (script_of_fst sc (g_set_idle (track (boundary g) (TCallFd obj band hid cookie)) false (g_idle g)) hid) as [A _].
+    rewrite S in A. cbn [fst] in A. rewrite A. cbn [g_m g_set_idle track g_with]. rewrite gm_boundary. reflexivity.
+  - destruct (script_of sc _ (HK_T + j)) as [g1 l] eqn:S. cbn [g_m g_with].
+    pose proof (script_of_fst sc (g_set_idle (track (boundary g) (TCallTimer j now)) false (g_idle g)) (HK_T + j)) as [A _].
+    rewrite S in A. cbn [fst] in A. rewrite A. cbn [g_m g_set_idle track g_with]. rewrite gm_boundary. reflexivity.
+  - destruct (script_of sc _ (HK_K + j)) as [g1 l] eqn:S. cbn [g_m g_with].
+    pose proof (script_of_fst sc (g_set_idle (track (boundary g) (TCallTask j)) false (g_idle g)) (HK_K + j)) as [A _].
+    rewrite S in A. cbn [fst] in A. rewrite A. cbn [g_m g_set_idle track g_with]. rewrite gm_boundary. reflexivity.
+  - destruct (script_of sc _ (HK_E + j)) as [g1 l] eqn:S. cbn [g_m g_with].
+    pose proof (script_of_fst sc (g_set_idle (track (boundary g) (TCallEvent j)) false (g_idle g)) (HK_E + j)) as [A _].
+    rewrite S in A. cbn [fst] in A. rewrite A. cbn [g_m g_set_idle track g_with]. rewrite gm_boundary. reflexivity.
+  - destruct (script_of sc _ (HK_R + j)) as [g1 l] eqn:S. cbn [g_m g_with].
+    pose proof (script_of_fst sc (g_set_idle (track (boundary g) (TCallRaw j)) false (g_idle g)) (HK_R + j)) as [A _].
+    rewrite S in A. cbn [fst] in A. rewrite A. cbn [g_m g_set_idle track g_with]. rewrite gm_boundary. reflexivity.
+  - (* TWait *)
+    rewrite gm_idle. cbn [g_m g_set_wait g_with]. f_equal.
+    destruct (existsb _ interest); destruct (g_wloaded _); rewrite ?gm_boundary; reflexivity.
+  - (* TRet *)
+    destruct n; reflexivity.
+  - (* TAct *)
+    cbv zeta. cbn [track g_m g_with]. f_equal.
+    pose proof (consume_keep g a) as [A _]. set (g1 := match consume g (g_todo g) a with Some _ => g | None => _ end) in *.
+    rewrite <- A.
+    destruct (consume g1 (g_todo g1) a); destruct a; reflexivity.
+  - (* TMain *) cbn [g_m g_with]. rewrite gm_boundary. reflexivity.
+  - (* TEnd *) rewrite gm_idle. cbn [g_m g_with]. rewrite gm_boundary. reflexivity.
+  - (* TTear *) cbn [g_m g_with]. rewrite gm_boundary. reflexivity.
+Qed.
+
+Lemma gstep_nf : forall g e,
+  (forall n c mx t i gd, e = TWait n c mx t i gd -> g_done g = false -> stale_at (g_m g) i = false) ->
+  In 1104 (g_fails (gstep sc g e)) -> In 1104 (g_fails g).
+Proof.
+  intros g e ST H. unfold gstep in H. destruct (g_done g) eqn:D; [assumption|].
+  destruct e; try exact H.
+  - destruct (script_of sc _ hid) as [g1 l] eqn:S. cbn [g_fails g_with] in H.
+    pose proof (script_of_fst sc (g_set_idle (track (boundary g) (TCallFd obj band hid cookie)) false (g_idle g)) hid) as [_ A].
+    rewrite S in A. cbn [fst] in A. rewrite A in H. apply nf_boundary. exact H.
+  - destruct (script_of sc _ (HK_T + j)) as [g1 l] eqn:S. cbn [g_fails g_with] in H.
+    pose proof (script_of_fst sc (g_set_idle (track (boundary g) (TCallTimer j now)) false (g_idle g)) (HK_T + j)) as [_ A].
+    rewrite S in A. cbn [fst] in A. rewrite A in H. apply nf_boundary. exact H.
+  - destruct (script_of sc _ (HK_K + j)) as [g1 l] eqn:S. cbn [g_fails g_with] in H.
+    pose proof (script_of_fst sc (g_set_idle (track (boundary g) (TCallTask j)) false (g_idle g)) (HK_K + j)) as [_ A].
+    rewrite S in A. cbn [fst] in A. rewrite A in H. apply nf_boundary. exact H.
+  - destruct (script_of sc _ (HK_E + j)) as [g1 l] eqn:S. cbn [g_fails g_with] in H.
+    pose proof (script_of_fst sc (g_set_idle (track (boundary g) (TCallEvent j)) false (g_idle g)) (HK_E + j)) as [_ A].
+    rewrite S in A. cbn [fst] in A. rewrite A in H. apply nf_boundary. exact H.
+  - destruct (script_of sc _ (HK_R + j)) as [g1 l] eqn:S. cbn [g_fails g_with] in H.
+    pose proof (script_of_fst sc (g_set_idle (track (boundary g) (TCallRaw j)) false (g_idle g)) (HK_R + j)) as [_ A].
+    rewrite S in A. cbn [fst] in A. rewrite A in H. apply nf_boundary. exact H.
+  - (* TWait *)
+    apply nf_idle in H. cbn [g_fails g_set_wait g_with track] in H.
+    pose proof (ST _ _ _ _ _ _ eq_refl eq_refl) as NS. unfold stale_at in NS. cbv zeta in NS. rewrite NS in H.
+    destruct (g_wloaded g); apply nf_boundary in H; [exact H|]. cbn [g_fails g_with] in H. apply nf_boundary. exact H.
+  - destruct n; exact H.
+  - (* TAct *)
+    cbv zeta in H. cbn [track g_fails g_with] in H.
+    pose proof (consume_keep g a) as [_ A]. set (g1 := match consume g (g_todo g) a with Some _ => g | None => _ end) in *.
+    apply A. clear A.
+    assert (H2 : In 1104 (g_fails (match consume g1 (g_todo g1) a with
+                                    | Some rest => g_with g1 (g_m g1) rest | None => g_fail g1 1101 end))).
+    { destruct a; exact H. }
+    destruct (consume g1 (g_todo g1) a); [exact H2|].
+    apply gfail_in in H2. destruct H2 as [H2|H2]; [discriminate H2|exact H2].
+  - (* TMain *) cbn [g_fails g_with track] in H. apply nf_boundary. exact H.
+  - (* TEnd *) apply nf_idle in H. cbn [g_fails g_with track] in H. apply nf_boundary. exact H.
+  - (* TTear *) cbn [g_fails g_with track] in H. apply nf_boundary. exact H.
+Qed.
+
+Lemma gmon_run_snoc : forall tr e, gmon_run sc (tr ++ [e]) = gstep sc (gmon_run sc tr) e.
+Proof. intros. unfold gmon_run. rewrite fold_left_app. reflexivity. Qed.
+
+Lemma mon_run_snoc : forall tr e, mon_run (tr ++ [e]) = mon_step (mon_run tr) e.
+Proof. intros. unfold mon_run. rewrite fold_left_app. reflexivity. Qed.
+
+Lemma gm_track : forall tr, g_done (gmon_run sc tr) = false -> g_m (gmon_run sc tr) = mon_run tr.
+Proof.
+  intros tr. induction tr as [|e tr IH] using rev_ind; intros D; [reflexivity|].
+  rewrite gmon_run_snoc in *. rewrite mon_run_snoc. pose proof (gstep_done _ _ D) as D0.
+  rewrite gstep_m by assumption. rewrite IH by assumption. reflexivity.
+Qed.
+
+(* ---------- the two monitors on the trace of a model state ---------- *)
+Definition gst (s : core) : gmon := gmon_run sc (rev (trace s)).
+
+Lemma gst_emit : forall s e, gst (emit s e) = gstep sc (gst s) e.
+Proof. intros s e. unfold gst, emit. cbn [trace set_trace rev]. apply gmon_run_snoc. Qed.
+
+Lemma gst_m : forall s, g_done (gst s) = false -> g_m (gst s) = mst s.
+Proof. intros s D. apply gm_track. exact D. Qed.
+
+Definition G2 (s : core) : Prop := Good2 (mst s) /\ ~ In 1104 (g_fails (gst s)).
+
+Lemma G2_trace : forall s s', trace s' = trace s -> G2 s -> G2 s'.
+Proof. intros s s' E [A B]. unfold G2, gst, mst in *. rewrite E. split; assumption. Qed.
+
+(* an event other than a kernel wait *)
+Lemma G2_emit : forall s e, G2 s -> Good2 (mon_step (mst s) e) ->
+  (forall n c mx t i gd, e = TWait n c mx t i gd -> stale_at (mst s) i = false) -> G2 (emit s e).
+Proof.
+  intros s e [A B] G W. split; [rewrite mst_emit; exact G|].
+  rewrite gst_emit. intro H. apply B. revert H. apply gstep_nf.
+  intros n c mx t i gd E D. rewrite gst_m by assumption. eapply W. eassumption.
+Qed.
+
+Lemma G2_sil : forall s e, sil e -> G2 s -> G2 (emit s e).
+Proof.
+  intros s e S G. apply G2_emit; [assumption|apply sil_good; [assumption|apply G]|].
+  intros n c mx t i gd E. subst e. destruct S.
+Qed.
+
+Lemma G2_act : forall s a, G2 s -> G2 (emit s (TAct a)).
+Proof.
+  intros s a G. apply G2_emit; [assumption|cbn [mon_step]; apply Good2_action; apply G|].
+  intros n c mx t i gd E. discriminate E.
+Qed.
+
+End Guard.
